@@ -15,8 +15,10 @@ Correspondence, four parts, all on the real code through jrharness:
                syntax error / std.trace planted at a known line and column, with non-ASCII
                text, comments, blank lines, CR LF before, on and after that line; the printed
                line must be the planted line, the column the planted column.
-A failing case inside a known class is a KNOWN-FINDING only if the code gives exactly the
-answer the faithful Coq model predicts.
+The impl-model of record is [Cur] (offset_to_location since /repo 6f9363a, JsFormat since 2fd7ca2):
+the code must agree with it everywhere.  A failing case inside a known class (multi-line span,
+rowan parser panic) is a KNOWN-FINDING only if the code gives exactly the answer the faithful Coq
+model predicts.
 """
 import itertools
 import json
@@ -29,11 +31,25 @@ from vlib import core
 IMPORTS = ("From Coq Require Import List NArith Bool.\nFrom JrV Require Import C17.Model.\n"
            "Import ListNotations.\nOpen Scope N_scope.\n")
 
-K_MB = "C17-loc-char-index-vs-byte-offset"
-K_DUP = "C17-loc-duplicate-offsets"
 K_ML = "C17-print-multiline-span"
 K_RP = "C17-rowan-parser-panics-on-invalid-input"
-K_JS = "C17-jsformat-column-plus-one"
+
+
+def par_eval(exprs, ways=8):
+    """core.coq_eval shards by 200 expressions; C17's expressions are few and heavy, so split
+    them over `ways` coqc processes ourselves (same semantics, results in order)."""
+    from concurrent.futures import ThreadPoolExecutor
+    if len(exprs) <= 40:
+        return core.coq_eval(IMPORTS, exprs)
+    ways = max(1, min(ways, core.NPROC, len(exprs) // 20))
+    chunks = [exprs[i::ways] for i in range(ways)]
+    with ThreadPoolExecutor(max_workers=ways) as ex:
+        parts = list(ex.map(lambda ch: core.coq_eval(IMPORTS, ch), chunks))
+    out = [None] * len(exprs)
+    for w, part in enumerate(parts):
+        for j, r in enumerate(part):
+            out[w + j * ways] = r
+    return out
 
 
 def cq_nlist(xs):
@@ -80,7 +96,7 @@ def loc_cases(run):
                         cases.append((text, [a, b]))
     # random
     pool = ["a", "b", "z", " ", "\t", "\n", "\n", "\r\n", "é", "é", "€", "😀", "x", "1", "\n"]
-    nrand = 12000 if thorough else 900
+    nrand = 12000 if thorough else 600
     for k in range(nrand):
         mode = k % 4  # 0 ascii, 1 ascii prefix then anything, 2 anything, 3 anything with dups
         n = rng.randint(0, 40)
@@ -121,55 +137,39 @@ def part_loc(run, binary, cases):
     exprs = []
     for text, offs in cases:
         f, o = cq_nlist(cps(text)), cq_nlist(offs)
-        exprs.append(f"(map full (offset_to_location Cur {f} {o}), map full (offset_to_location Fixed {f} {o}), "
+        exprs.append(f"(map full (offset_to_location Cur {f} {o}), "
                      f"map (fun o => (o, spec_line (encode {f}) o, spec_col (encode {f}) o + 1, "
-                     f"spec_line_start (encode {f}) o)) {o}, known_multibyte {f} {o}, known_dup {o})")
-    model = core.coq_eval(IMPORTS, exprs)
+                     f"spec_line_start (encode {f}) o)) {o})")
+    model = par_eval(exprs)
     outs = core.run_harness(binary, "loc", [{"text": t, "offsets": o} for t, o in cases])
-    rows = []
     for (text, offs), m, o in zip(cases, model, outs):
         if isinstance(m, tuple) and m and m[0] == "ERROR":
             run.obligation("model.eval(loc)", False, str(m[1])[:300])
             continue
-        cur, fixed, spec, kmb, kdup = m
+        cur, spec = m
         cur = [tuple(x) for x in cur]
-        fixed = [tuple(x) for x in fixed]
         spec = [tuple(x) for x in spec]
         got = [tuple(x) for x in o["locs"]] if isinstance(o, dict) and "locs" in o else None
-        rows.append((text, offs, cur, fixed, spec, kmb, kdup, got, o))
-    agree_fixed = all(r[7] == r[3] for r in rows)
-    differ_cur = any(r[7] != r[2] for r in rows)
-    fixed_mode = agree_fixed and differ_cur
-    if fixed_mode:
-        run.notes.append("offset_to_location agrees with the REPAIRED model (Fixed) on every case: the fix has "
-                         "landed; known classes no longer reproduce; C17_loc_fixed_general is the tied theorem")
-    run.coverage["loc_mode"] = "fixed" if fixed_mode else "current"
-    for text, offs, cur, fixed, spec, kmb, kdup, got, raw in rows:
         canon = json.dumps([text, offs], ensure_ascii=False)
         ascii_only = all(ord(c) < 128 for c in text)
+        maxo = max(offs)
+        nonascii_before = any(ord(c) > 127 for c in text.encode("utf-8")[:maxo].decode("utf-8", "ignore"))
         run.note_case("loc:" + canon, len(text) > 1)
-        run.count("loc:" + ("known-multibyte" if kmb else "known-dup" if kdup else
+        run.count("loc:" + ("duplicates" if len(set(offs)) < len(offs) else "nonascii-before" if nonascii_before else
                             "ascii" if ascii_only else "nonascii-after"))
         case = {"part": "loc", "text": text, "offsets": offs}
         if got is None:
             failures.append({"case": case, "summary": f"C17 offset_to_location did not answer: {canon[:120]}",
-                             "expected": spec, "got": raw})
+                             "expected": spec, "got": o})
             continue
-        model_ref = fixed if fixed_mode else cur
         core_got = [g[:4] for g in got]
         if core_got != spec:
-            f = {"case": case, "summary": f"C17 offset_to_location({canon[:150]}) -> (offset,line,col+1,line_start) "
-                                          f"{core_got} expected {spec}",
-                 "expected": spec, "got": core_got}
-            if got == model_ref:
-                if kmb:
-                    f["known"] = K_MB
-                elif kdup:
-                    f["known"] = K_DUP
-            failures.append(f)
-        elif got != model_ref:
-            diffs.append({"case": case, "model": model_ref, "code": got})
-        if len(run.samples) < 3 and not ascii_only and not kmb and not kdup and len(offs) > 1:
+            failures.append({"case": case, "summary": f"C17 offset_to_location({canon[:150]}) -> (offset,line,col+1,"
+                                                      f"line_start) {core_got} expected {spec}",
+                             "expected": spec, "got": core_got})
+        elif got != cur:
+            diffs.append({"case": case, "model": cur, "code": got})
+        if len(run.samples) < 3 and nonascii_before and len(offs) > 1:
             run.samples.append({"part": "loc", "text": text, "offsets": offs, "code": got, "spec": spec})
     return failures, diffs
 
@@ -200,7 +200,7 @@ def lex_inputs(run):
     for b in BLOCKS:
         ins.append("local a = " + b + "; a")
         ins.append(b + " + " + b)
-    n1 = 6000 if thorough else 550
+    n1 = 6000 if thorough else 450
     for _ in range(n1):  # token sequences
         parts = []
         for _ in range(rng.randint(1, 12)):
@@ -350,7 +350,7 @@ def pos_cases(run):
     thorough = run.tier == "thorough"
     cases = []
     n = 0
-    total = 6000 if thorough else 520
+    total = 6000 if thorough else 330
     for k in range(total):
         cons, loff, llen, kind = CONSTRUCTS[k % len(CONSTRUCTS)]
         if kind == "none":
@@ -412,13 +412,16 @@ def part_pos(run, binary, cases):
     for c in ev:
         f = cq_nlist(cps(c["text"]))
         if c["kind"].startswith("syntax"):
-            exprs.append(f"[syntax_error_print Cur {f} {c['start']}; syntax_error_print Fixed {f} {c['start']}]")
+            exprs.append(f"(syntax_error_print Cur {f} {c['start']})")
         else:
             q = f"[{c['start']}; {c['end']}]"
-            exprs.append(f"[let l := offset_to_location Cur {f} {q} in print_loc (nth 0 l zero_loc) (nth 1 l zero_loc); "
-                         f"let l := offset_to_location Fixed {f} {q} in print_loc (nth 0 l zero_loc) (nth 1 l zero_loc)]")
-    model = core.coq_eval(IMPORTS, exprs)
-    fixed_mode = run.coverage.get("loc_mode") == "fixed"
+            exprs.append(f"(let l := offset_to_location Cur {f} {q} in print_loc (nth 0 l zero_loc) (nth 1 l zero_loc))")
+    js = [c for c in ev if c["kind"] == "runtime"]
+    jexprs = [f"(let l := offset_to_location Cur {cq_nlist(cps(c['text']))} [{c['start']}; {c['end']}] in "
+              f"print_js (nth 0 l zero_loc))" for c in js]
+    texprs = [f"(map c_line (offset_to_location Cur {cq_nlist(cps(c['text']))} [{c['start']}]))" for c in tr]
+    allm = par_eval(exprs + jexprs + texprs)   # one round of coqc processes for the three model runs
+    model, jmodel, tmodel = allm[:len(exprs)], allm[len(exprs):len(exprs) + len(jexprs)], allm[len(exprs) + len(jexprs):]
 
     def norm_model(p):
         # (line, col, None | Some (None|Some l2, c2)) as printed numbers
@@ -445,7 +448,7 @@ def part_pos(run, binary, cases):
         if isinstance(m, tuple) and m and m[0] == "ERROR":
             run.obligation("model.eval(pos)", False, str(m[1])[:300])
             continue
-        pred = norm_model(m[1] if fixed_mode else m[0])
+        pred = norm_model(m)
         et = o.get("errtext") if isinstance(o, dict) else None
         want_kind = "ImportSyntaxError" if c["kind"].startswith("syntax") else None
         if et is None or (want_kind and o.get("err") != want_kind) or (not want_kind and o.get("err") == "ImportSyntaxError"):
@@ -469,24 +472,16 @@ def part_pos(run, binary, cases):
             f = {"case": case, "summary": f"C17 {c['kind']} planted at {exp[0]}:{exp[1]} reported at {mm.group(0)[10:]}: "
                                           f"{json.dumps(text, ensure_ascii=False)[:120]}",
                  "expected": list(exp), "got": list(got)}
-            if got == pred:
-                if nonascii_before and not fixed_mode:
-                    f["known"] = K_MB
-                elif c["kind"] == "runtime-multiline":
-                    f["known"] = K_ML
+            if got == pred and c["kind"] == "runtime-multiline":
+                f["known"] = K_ML
             failures.append(f)
         elif got != pred:
             diffs.append({"case": case, "model": list(pred), "code": list(got)})
-        if len(run.samples) < 8 and not nonascii_before and any(ord(ch) > 127 for ch in text):
+        if len(run.samples) < 8 and nonascii_before and got[:2] == exp:
             run.samples.append({"part": "pos", "text": text, "planted": exp, "printed": mm.group(0)})
     # the same runtime cases through JsFormat: "at desc (path:line:column)"
-    js = [c for c in ev if c["kind"] == "runtime"]
     if js:
         jouts = core.run_harness(binary, "errjs", [{"code": c["text"]} for c in js])
-        jmodel = core.coq_eval(IMPORTS, [
-            f"[let l := offset_to_location Cur {cq_nlist(cps(c['text']))} [{c['start']}; {c['end']}] in print_js (nth 0 l zero_loc); "
-            f"let l := offset_to_location Fixed {cq_nlist(cps(c['text']))} [{c['start']}; {c['end']}] in print_js (nth 0 l zero_loc)]"
-            for c in js])
         for c, o, m in zip(js, jouts, jmodel):
             text = c["text"]
             exp = spec_pos(text, c["start"])
@@ -498,7 +493,7 @@ def part_pos(run, binary, cases):
             if isinstance(m, tuple) and m and m[0] == "ERROR":
                 run.obligation("model.eval(js)", False, str(m[1])[:300])
                 continue
-            pred = tuple(m[1] if fixed_mode else m[0])
+            pred = tuple(m)
             mm = re.search(r"<cmdline>:(\d+):(\d+)\)", (o.get("js") or "").split("\n", 1)[-1]) if isinstance(o, dict) else None
             if not mm:
                 failures.append({"case": case, "summary": "C17 JsFormat printed no location for the planted construct",
@@ -509,8 +504,6 @@ def part_pos(run, binary, cases):
                 f = {"case": case, "summary": f"C17 JsFormat: construct at {exp[0]}:{exp[1]} reported at {got[0]}:{got[1]}: "
                                               f"{json.dumps(text, ensure_ascii=False)[:120]}",
                      "expected": list(exp), "got": list(got)}
-                if got == pred:
-                    f["known"] = K_MB if (nonascii_before and not fixed_mode) else K_JS
                 failures.append(f)
             elif got != pred:
                 diffs.append({"case": case, "model": list(pred), "code": list(got)})
@@ -524,10 +517,7 @@ def part_pos(run, binary, cases):
             mm = re.match(r"TRACE: virtual:<cmdline>:(\d+) (T\d+)$", ln)
             if mm:
                 seen[mm.group(2)] = int(mm.group(1))
-        exprs = [f"(map c_line (offset_to_location Cur {cq_nlist(cps(c['text']))} [{c['start']}]), "
-                 f"map c_line (offset_to_location Fixed {cq_nlist(cps(c['text']))} [{c['start']}]))" for c in tr]
-        model = core.coq_eval(IMPORTS, exprs)
-        for c, m in zip(tr, model):
+        for c, m in zip(tr, tmodel):
             text = c["text"]
             exp = spec_pos(text, c["start"])
             pre = text.encode("utf-8")[:c["start"]].decode("utf-8")
@@ -536,13 +526,11 @@ def part_pos(run, binary, cases):
             run.count("pos:trace:" + ("nonascii-before" if nonascii_before else "other"))
             case = {"part": "pos", "text": text, "kind": "trace", "planted": {"line": exp[0]}}
             got = seen.get(c["label"])
-            pred = (m[1] if fixed_mode else m[0])[0]
+            pred = m[0]
             if got != exp[0]:
                 f = {"case": case, "summary": f"C17 std.trace on line {exp[0]} printed line {got}: "
                                               f"{json.dumps(text, ensure_ascii=False)[:120]}",
                      "expected": exp[0], "got": got}
-                if got == pred and nonascii_before and not fixed_mode:
-                    f["known"] = K_MB
                 failures.append(f)
             elif got != pred:
                 diffs.append({"case": case, "model": pred, "code": got})
